@@ -30,13 +30,13 @@ variable (F : M3 K) (s p u : Nat → K)
 /-- `det` of a tensor is the determinant -/
 theorem N3_det : Gen.N3_det_r c c3 fn (tensv F) = F.det := by
   obtain ⟨f00,f01,f02,f10,f11,f12,f20,f21,f22⟩ := F
-  c23_unfold; ring
+  c23_unfold <;> (try ring1)
 /-- `invert`: `F * invert F = 1` when `det F ≠ 0` -/
 theorem N3_invert (hc : c * c = 2) (hJ : F.det ≠ 0) : F * M3.ofTens (Gen.N3_invert_r c c3 fn (tensv F)) = 1 := by
   have hd : Gen.N3_invert_den0 c c3 fn (tensv F) ≠ 0 := by
     have : Gen.N3_invert_den0 c c3 fn (tensv F) = F.det := by
       obtain ⟨f00,f01,f02,f10,f11,f12,f20,f21,f22⟩ := F
-      c23_unfold; ring
+      c23_unfold <;> (try ring1)
     rw [this]; exact hJ
   obtain ⟨f00,f01,f02,f10,f11,f12,f20,f21,f22⟩ := F
   c23_rat hc with hd
@@ -48,7 +48,7 @@ theorem N3_dJ_cofactor (hc : c * c = 2) : M3.ofTens (Gen.N3_dJ_r c c3 fn (tensv 
 theorem N3_dJ_jacobi (L : M3 K) : dot (Gen.N3_dJ_r c c3 fn (tensv F)) (M3.tens3 (L * F)) = F.det * L.trace := by
   obtain ⟨f00,f01,f02,f10,f11,f12,f20,f21,f22⟩ := F
   obtain ⟨l00,l01,l02,l10,l11,l12,l20,l21,l22⟩ := L
-  c23_unfold; ring
+  c23_unfold <;> (try ring1)
 /-- right Cauchy–Green tensor `C = FᵀF` and Green–Lagrange strain `E = (C − 1)/2` -/
 theorem N3_rightCauchyGreen (hc : c * c = 2) :
     Gen.N3_rightCauchyGreen_r c c3 fn (tensv F) = M3.mandel3 c (F.transpose * F) := by
@@ -83,7 +83,7 @@ theorem N3_pk1_to_cauchy (hc : c * c = 2) (h2 : (2:K) ≠ 0) (hJ : F.det ≠ 0) 
   have hd : Gen.N3_pk1_to_cauchy_den0 c c3 fn p (tensv F) ≠ 0 := by
     have : Gen.N3_pk1_to_cauchy_den0 c c3 fn p (tensv F) = F.det := by
       obtain ⟨f00,f01,f02,f10,f11,f12,f20,f21,f22⟩ := F
-      c23_unfold; ring
+      c23_unfold <;> (try ring1)
     rw [this]; exact hJ
   obtain ⟨f00,f01,f02,f10,f11,f12,f20,f21,f22⟩ := F
   c23_rat hc with hd
@@ -94,7 +94,7 @@ theorem N3_cauchy_to_pk2 (hc : c * c = 2) (h2 : (2:K) ≠ 0) (hJ : F.det ≠ 0) 
   have hd : Gen.N3_cauchy_to_pk2_den0 c c3 fn s (tensv F) ≠ 0 := by
     have : Gen.N3_cauchy_to_pk2_den0 c c3 fn s (tensv F) = F.det := by
       obtain ⟨f00,f01,f02,f10,f11,f12,f20,f21,f22⟩ := F
-      c23_unfold; ring
+      c23_unfold <;> (try ring1)
     rw [this]; exact hJ
   obtain ⟨f00,f01,f02,f10,f11,f12,f20,f21,f22⟩ := F
   c23_rat hc with hd
@@ -105,7 +105,7 @@ theorem N3_pk2_to_cauchy (hc : c * c = 2) (h2 : (2:K) ≠ 0) (hJ : F.det ≠ 0) 
   have hd : Gen.N3_pk2_to_cauchy_den0 c c3 fn p (tensv F) ≠ 0 := by
     have : Gen.N3_pk2_to_cauchy_den0 c c3 fn p (tensv F) = F.det := by
       obtain ⟨f00,f01,f02,f10,f11,f12,f20,f21,f22⟩ := F
-      c23_unfold; ring
+      c23_unfold <;> (try ring1)
     rw [this]; exact hJ
   obtain ⟨f00,f01,f02,f10,f11,f12,f20,f21,f22⟩ := F
   c23_rat hc with hd
@@ -116,7 +116,7 @@ section N2
 variable (f0 f1 f2 f3 f4 : K) (s p u : Nat → K)
 /-- `det` of a tensor is the determinant -/
 theorem N2_det : Gen.N2_det_r c c3 fn (tensv (plane f0 f1 f2 f3 f4)) = (plane f0 f1 f2 f3 f4).det := by
-  c23_unfold; ring
+  c23_unfold <;> (try ring1)
 /-- `invert`: `F * invert F = 1` when `det F ≠ 0` -/
 theorem N2_invert (hc : c * c = 2) (hJ : (plane f0 f1 f2 f3 f4).det ≠ 0) : (plane f0 f1 f2 f3 f4) * M3.ofTens (Gen.N2_invert_r c c3 fn (tensv (plane f0 f1 f2 f3 f4))) = 1 := by
   obtain ⟨h1, h2'⟩ := plane_det_ne hJ
@@ -126,7 +126,7 @@ theorem N2_dJ_cofactor (hc : c * c = 2) : M3.ofTens (Gen.N2_dJ_r c c3 fn (tensv 
   c23_poly hc
 /-- … hence Jacobi's formula along `δF = L F`: `dJ : δF = det F · tr L` -/
 theorem N2_dJ_jacobi (l0 l1 l2 l3 l4 : K) : dot (Gen.N2_dJ_r c c3 fn (tensv (plane f0 f1 f2 f3 f4))) (M3.tens2 ((plane l0 l1 l2 l3 l4) * (plane f0 f1 f2 f3 f4))) = (plane f0 f1 f2 f3 f4).det * (plane l0 l1 l2 l3 l4).trace := by
-  c23_unfold; ring
+  c23_unfold <;> (try ring1)
 /-- right Cauchy–Green tensor `C = FᵀF` and Green–Lagrange strain `E = (C − 1)/2` -/
 theorem N2_rightCauchyGreen (hc : c * c = 2) :
     Gen.N2_rightCauchyGreen_r c c3 fn (tensv (plane f0 f1 f2 f3 f4)) = M3.mandel2 c ((plane f0 f1 f2 f3 f4).transpose * (plane f0 f1 f2 f3 f4)) := by
@@ -175,7 +175,7 @@ section N1
 variable (f0 f1 f2 : K) (s p u : Nat → K)
 /-- `det` of a tensor is the determinant -/
 theorem N1_det : Gen.N1_det_r c c3 fn (tensv (dg f0 f1 f2)) = (dg f0 f1 f2).det := by
-  c23_unfold; ring
+  c23_unfold <;> (try ring1)
 /-- `invert`: `F * invert F = 1` when `det F ≠ 0` -/
 theorem N1_invert (hc : c * c = 2) (hJ : (dg f0 f1 f2).det ≠ 0) : (dg f0 f1 f2) * M3.ofTens (Gen.N1_invert_r c c3 fn (tensv (dg f0 f1 f2))) = 1 := by
   obtain ⟨h0, h1, h2'⟩ := dg_det_ne hJ
@@ -185,7 +185,7 @@ theorem N1_dJ_cofactor (hc : c * c = 2) : M3.ofTens (Gen.N1_dJ_r c c3 fn (tensv 
   c23_poly hc
 /-- … hence Jacobi's formula along `δF = L F`: `dJ : δF = det F · tr L` -/
 theorem N1_dJ_jacobi (l0 l1 l2 : K) : dot (Gen.N1_dJ_r c c3 fn (tensv (dg f0 f1 f2))) (M3.tens1 ((dg l0 l1 l2) * (dg f0 f1 f2))) = (dg f0 f1 f2).det * (dg l0 l1 l2).trace := by
-  c23_unfold; ring
+  c23_unfold <;> (try ring1)
 /-- right Cauchy–Green tensor `C = FᵀF` and Green–Lagrange strain `E = (C − 1)/2` -/
 theorem N1_rightCauchyGreen (hc : c * c = 2) :
     Gen.N1_rightCauchyGreen_r c c3 fn (tensv (dg f0 f1 f2)) = M3.mandel1 ((dg f0 f1 f2).transpose * (dg f0 f1 f2)) := by
